@@ -27,6 +27,7 @@ pub fn model_key(v: &RVal, depth: u8, out: &mut Vec<u8>) {
                 RNum::I(i) => i as f64,
                 RNum::F(b) => f64::from_bits(b),
             };
+            let f = if f == 0.0 { 0.0 } else { f }; // -0.0 and 0 share a key
             let s = f.to_bits() as i64;
             let v = s ^ (((s >> 63) as u64) >> 1) as i64;
             let mut b = v.to_be_bytes();
